@@ -54,6 +54,11 @@ struct c04_session : public vsim_session {
       o << " go";
       for (std::vector<int> ix = abf->gradients->new_index(); abf->gradients->index_ok(ix); abf->gradients->incr(ix))
         for (size_t k = 0; k < abf->colvars.size(); k++) o << " " << vs_hex(abf->gradients->value_output(ix, k));
+      // script entry points: cv bias <name> bin / bincount <bin> / binnum, local_sample_count 0
+      {
+        int const sb = abf->current_bin();
+        o << " scr " << sb << " " << abf->bin_count(sb) << " " << abf->bin_num() << " " << abf->local_sample_count(0);
+      }
       o << " per";
       for (size_t i = 0; i < abf->gradients->periodic.size(); i++) o << " " << (abf->gradients->periodic[i] ? 1 : 0);
       o << " nx";
